@@ -220,11 +220,11 @@ func (c *Ctx) ensuresOnNil(g *ssa.Function, pi int, f kindFact, depth int) bool 
 	hold := core.MustHold(g, c.kindEst("reflect.ValueOf("+c.M.ValPath(g.Params[pi])+")", f, depth))
 	n := 0
 	for _, ret := range core.ReturnsOf(g) {
-		if c.M.ProvablyNonNilError(core.RetVal(ret, ei), ret.Block()) {
+		if c.M.RetNonNil(ret, ei) {
 			continue
 		}
 		n++
-		if !hold[ret.Block()] {
+		if !hold[ret.Key()] {
 			return false
 		}
 	}
@@ -974,14 +974,23 @@ func (c *Ctx) ownReflectedMap(m ssa.Value) bool {
 	if n != "reflect.MakeMapWithSize" && n != "reflect.MakeMap" {
 		return false
 	}
-	t, ok := mk.Call.Args[0].(*ssa.Call)
-	if !ok {
-		return false
+	// (the type may be handed to a worker by the function that asked the schema for it)
+	for _, src := range core.ParamSources(mk.Call.Args[0]) {
+		t, ok := src.(*ssa.Call)
+		if !ok {
+			return false
+		}
+		if t.Call.IsInvoke() {
+			if t.Call.Method.Name() != "ReflectedType" {
+				return false
+			}
+			continue
+		}
+		if !strings.HasSuffix(core.StaticCalleeName(&t.Call), ".ReflectedType") {
+			return false
+		}
 	}
-	if t.Call.IsInvoke() {
-		return t.Call.Method.Name() == "ReflectedType"
-	}
-	return strings.HasSuffix(core.StaticCalleeName(&t.Call), ".ReflectedType")
+	return true
 }
 
 // isChildUnserializeResult: reflect.ValueOf(<result #0 of an invoke of Unserialize on a child-schema field>).
